@@ -880,7 +880,28 @@ func (g *Gen) checkCallPre(ct *Contract, key string, c *ssa.CallCommon, in ssa.I
 
 func (g *Gen) chanEffects(v *ssa.Select, ts []T, st State, reach string) {}
 
+// chanOpLocked: the contract's chan_ops_under discipline for one send (write=false) or close (write=true)
+func (g *Gen) chanOpLocked(what string, write bool, pos token.Pos, st State, reach string) {
+	if g.ct == nil || g.ct.ChanOpsUnder == nil || g.dry {
+		return
+	}
+	env := g.envAt(st, g.entryState(), g.pkg, g.paramEnv)
+	lock := env.compile(g.ct.ChanOpsUnder.Expr, nil)
+	if g.reportSpecErrors(env, *g.ct.ChanOpsUnder) {
+		return
+	}
+	h := g.stGet(st, "L.held", &Sort{K: KRaw, Name: "(Array Int Int)"})
+	cond := app(">=", app("select", h, lock.S), "1")
+	mode := "held"
+	if write {
+		cond = app("=", app("select", h, lock.S), "2")
+		mode = "held for writing"
+	}
+	g.newObligation("lockset.chan-"+what, "", fmt.Sprintf("channel %s with the lock of %s %s", what, g.ct.ChanOpsUnder.Text, mode), g.where(pos), app("=>", reach, cond))
+}
+
 func (g *Gen) execSend(v *ssa.Send, st State, reach string) {
+	g.chanOpLocked("send", false, v.Pos(), st, reach)
 	g.sendHook(g.val(v.Chan), g.val(v.X), v.Chan.Type(), st, reach, v.Pos())
 }
 
@@ -898,6 +919,7 @@ func (g *Gen) execRecv(v *ssa.UnOp, st State, reach string) {
 }
 
 func (g *Gen) closeEffects(c *ssa.CallCommon, in ssa.Instruction, st State, reach string) {
+	g.chanOpLocked("close", true, in.Pos(), st, reach)
 	ch := g.val(c.Args[0])
 	if _, ok := g.cs.Ghosts["chan_closed"]; ok {
 		so := rawSort(g.cs.Ghosts["chan_closed"].Sort)
